@@ -346,25 +346,33 @@ class Run:
         eq = self.cfg.get("line_equal")
         if eq:
             return eq(cmd, a, b)
-        if cmd == "areas" and a != b:
-            # the area list is a set of (name, start, length, access, data): its order is an implementation detail, and so
-            # are names the emulator invents itself (stack, ELF segments, heap) - only names the case passed in are compared
-            def canon(line):
-                if line in ("none", "unspecified"):
-                    return line
+        if cmd == "areas":
+            # the area list is a set of (name, start, length, access, data): its order is an implementation detail, and so are
+            # the names of areas the emulator creates on its own (stack, argument strings, ELF segments): the model marks
+            # those with `!` (it knows which areas the case created itself); only the other names are compared
+            def parse(line):
                 out = []
                 for t in line.split(" "):
                     f = t.split(",")
-                    if len(f) != 6:
-                        return line
-                    if f[0] not in getattr(self, "_given", set()) and f[0] != "~":
-                        f[0] = "*"
-                    out.append((int(f[1], 16), int(f[2], 16), ",".join(f)))
-                return " ".join(x[2] for x in sorted(out))
+                    if len(f) < 6:
+                        raise ValueError(t)
+                    name = ",".join(f[:-5])
+                    out.append(((int(f[-5], 16), int(f[-4], 16), f[-3], f[-2], f[-1]), name))
+                return sorted(out, key=lambda x: x[0])
+            if a in ("none", "unspecified") or b in ("none", "unspecified"):
+                return a == b
             try:
-                return canon(a) == canon(b)
+                pa, pb = parse(a), parse(b)
             except ValueError:
+                return a == b
+            if len(pa) != len(pb):
                 return False
+            for (ka, na), (kb, nb) in zip(pa, pb):
+                if ka != kb:
+                    return False
+                if not nb.startswith("!") and na != nb:
+                    return False
+            return True
         if a != b and "=?" in b:
             # a field the model declares unknown (flags after a failed instruction)
             ta, tb = a.split(" "), b.split(" ")
